@@ -503,6 +503,8 @@ class StatesManager:
         self.grid = grid
         self.pairing = pairing
         self._last_projected_index = -1
+        # pairing index of the last state the caller has logged (see project_index_to_state_increment)
+        self._last_logged_index = -1
 
     def is_outside(self, state_increment):
         state = self.origin_coordinates + state_increment
@@ -523,21 +525,25 @@ class StatesManager:
     ) -> tuple[tuple[int, ...], bool]:
         """Return the state increment and a boolean which is True if we have exhausted all the states in the domain
 
-        :param x: current index to be mapped to a state increment
-        :param max_logged: max logged index
+        :param x: rank of the requested state in the enumeration of the admissible states (number of states returned
+                  before it); the ranks below max_logged are logged by the caller
+        :param max_logged: number of states the caller logs (negative: no limit)
         :return: the state increment and a break condition
         """
         is_outside = self.is_outside
         project = self.pairing.project
         if x == max_logged:
-            # reset the self._last_projected_index
-            self._last_projected_index = -1
+            # the caller restarts after its last logged state: x is a rank, not a pairing index, so the search resumes
+            # after the pairing index of that state (indices of inadmissible states may have been skipped before it)
+            self._last_projected_index = self._last_logged_index
 
         xx = max(x, self._last_projected_index + 1)
 
         while xx <= self.max_frontier_indices:
             if not is_outside(state_increment := project(xx)):
                 self._last_projected_index = xx
+                if x < max_logged or max_logged < 0:
+                    self._last_logged_index = xx
                 return state_increment, False
             xx = xx + 1
 
